@@ -44,6 +44,27 @@ class HExc(Exception):
         self.k = k
 
 
+class HRtExc(RuntimeError):
+    """Scripted exception that is an instance of a RuntimeError subclass (identity matters)."""
+
+    def __init__(self, k):
+        super().__init__(k)
+        self.k = k
+
+
+class HNiExc(NotImplementedError):
+    """Scripted exception that is a NotImplementedError (identity matters)."""
+
+    def __init__(self, k):
+        super().__init__(k)
+        self.k = k
+
+
+HARNESS_EXC = (HExc, HRtExc, HNiExc)
+RAISE_KINDS = {'raise': HExc, 'raise_rt': HRtExc, 'raise_ni': HNiExc}
+_MISSING = object()
+
+
 class Val:
     """Harness return value (identity matters)."""
 
@@ -243,7 +264,7 @@ def make_awaitable(rt, L, i, script, form, vals, excs):
         if d is not None:
             await asyncio.sleep(d * TICK)
         rt.ev(rt.me(), 'fin', i, asyncio.get_running_loop() is L)
-        if kind == 'raise':
+        if kind in RAISE_KINDS:
             raise excs[i]
         return vals[i]
 
@@ -257,7 +278,7 @@ def make_awaitable(rt, L, i, script, form, vals, excs):
     async def resolver():
         try:
             r = await co()
-        except HExc as e:
+        except HARNESS_EXC as e:
             fut.set_exception(e)
         else:
             fut.set_result(r)
@@ -274,7 +295,7 @@ def classify(i, vals, excs, r=None, e=None):
     for k, x in enumerate(excs):
         if e is x:
             return ['exc', k]
-    if isinstance(e, HExc):
+    if isinstance(e, HARNESS_EXC):
         return ['exc', 99]
     if isinstance(e, RuntimeError):
         return ['lib', 'RuntimeError']
@@ -438,8 +459,10 @@ def run_case(case, chooser=None, max_steps=1500):
     L.rt = rt
     loops = [L]
     vals = [Val(k) for k in range(n)]
-    excs = [HExc(k) for k in range(n)]
-    saved = {k: getattr(A, k) for k in
+    excs = [RAISE_KINDS.get(scripts[k][0], HExc)(k) for k in range(n)]
+    # a module attribute the implementation no longer has is still substituted (and removed again
+    # afterwards): the run then simply shows no operations on it, which the model does not accept
+    saved = {k: getattr(A, k, _MISSING) for k in
              ('_CROSS_LOOP_POOL', 'Lock', 'sleep', '_LOOP_LOCKS', '_LOOP_LOCKS_CREATE_LOCK', 'run_coro_ts')}
     pool = JExecutor(rt)
     gate.GFuture, saved_gf = JFuture, gate.GFuture      # JExecutor.submit builds gate.GFuture()
@@ -562,7 +585,11 @@ def run_case(case, chooser=None, max_steps=1500):
             ctl.abort()
     finally:
         for k, v in saved.items():
-            setattr(A, k, v)
+            if v is _MISSING:
+                if hasattr(A, k):
+                    delattr(A, k)
+            else:
+                setattr(A, k, v)
         gate.GFuture = saved_gf
         for c in coros:
             try:
